@@ -127,6 +127,7 @@ type Contract struct {
 	GhostUpd   []GhostUpdate
 	Uses       []string
 	UsesAtReturn []string // lemma instances at every return (may mention result)
+	UnfoldsAtReturn []string
 	Unfolds    []string // unfoldings of recursive spec functions over the entry state
 	Inducts    []string // lemma: instances of the lemma itself assumed under a smaller measure
 	Measure    *SpecExpr
@@ -446,6 +447,8 @@ func (cs *ContractSet) parseFile(path string) {
 		case "unfold":
 			if ord != "" {
 				loop().Unfolds = append(loop().Unfolds, rest)
+			} else if i := strings.Index(rest, " at return"); i >= 0 {
+				cur.UnfoldsAtReturn = append(cur.UnfoldsAtReturn, strings.TrimSpace(rest[:i]+rest[i+10:]))
 			} else {
 				cur.Unfolds = append(cur.Unfolds, rest)
 			}
